@@ -5,6 +5,7 @@ import (
 	"go/ast"
 	"go/token"
 	"go/types"
+	"golang.org/x/tools/go/packages"
 	"sort"
 	"strings"
 )
@@ -118,31 +119,49 @@ func ruleEqDynamic(c *Ctx) []Obligation {
 			type rec struct {
 				call *ast.CallExpr
 				x, y string
+				body *ast.BlockStmt
 			}
 			var recs []rec
+			bodies := []*ast.BlockStmt{fd.Body}
+			// the element loop may live in a helper of the same package (one level)
 			mbInspectNoLit(fd.Body, func(n ast.Node) bool {
-				call, ok := n.(*ast.CallExpr)
-				if !ok || len(call.Args) != 1 {
-					return true
-				}
-				sel, ok := call.Fun.(*ast.SelectorExpr)
-				if !ok || sel.Sel.Name != "IsEqual" {
-					return true
-				}
-				if fn := CalleeOf(l.info, call); fn != nil {
-					if sig, ok := fn.Type().(*types.Signature); ok && sig.Recv() != nil && types.IsInterface(sig.Recv().Type()) {
-						recs = append(recs, rec{call, exprStr(mbStripDeref(sel.X)), exprStr(mbStripDeref(call.Args[0]))})
+				if call, ok := n.(*ast.CallExpr); ok {
+					if fn := CalleeOf(l.info, call); fn != nil && fn.Pkg() == l.pkg.Types {
+						for _, hd := range AllFuncDecls(l.pkg) {
+							if hd.Body != nil && l.info.Defs[hd.Name] == fn && hd != fd {
+								bodies = append(bodies, hd.Body)
+							}
+						}
 					}
 				}
 				return true
 			})
+			for _, curBody := range bodies {
+				curBody := curBody
+				mbInspectNoLit(curBody, func(n ast.Node) bool {
+					call, ok := n.(*ast.CallExpr)
+					if !ok || len(call.Args) != 1 {
+						return true
+					}
+					sel, ok := call.Fun.(*ast.SelectorExpr)
+					if !ok || sel.Sel.Name != "IsEqual" {
+						return true
+					}
+					if fn := CalleeOf(l.info, call); fn != nil {
+						if sig, ok := fn.Type().(*types.Signature); ok && sig.Recv() != nil && types.IsInterface(sig.Recv().Type()) {
+							recs = append(recs, rec{call, exprStr(mbStripDeref(sel.X)), exprStr(mbStripDeref(call.Args[0])), curBody})
+						}
+					}
+					return true
+				})
+			}
 			if len(recs) == 0 {
 				obs = append(obs, Obligation{Key: key, Pos: c.Pos(fd.Pos()), Status: Undecided, Detail: "dynamically typed container whose IsEqual compares no elements through the value interface: shape not understood"})
 				continue
 			}
 			var bad []string
 			for _, r := range recs {
-				if !eqdGuarded(l.info, fd.Body, r.call, r.x, r.y) {
+				if !eqdGuarded(l.info, r.body, r.call, r.x, r.y) && !eqdGuardedPaths(l.pkg, r.body, r.call, r.x, r.y) {
 					bad = append(bad, fmt.Sprintf("%s: %s.IsEqual(%s) is not preceded by `if %s.Kind() != %s.Kind() { return false }`: %s has no component type in the analyzer (%s), so the two elements may be of different kinds and the callee's `other.(T)` assertion panics", c.Pos(r.call.Pos()), r.x, r.y, r.x, r.y, mbShortKind(tk), ts.Obj().Name()))
 				}
 			}
@@ -233,4 +252,175 @@ func eqdGuarded(info *types.Info, body *ast.BlockStmt, call *ast.CallExpr, x, y 
 	}
 	walk(body.List)
 	return ok
+}
+
+// eqdGuardedPaths: on every path from the start of body to the statement containing call, a decision was taken that
+// implies x.Kind() == y.Kind(): `!=` decided false, `==` decided true, a boolean local holding such a comparison, kind
+// locals, or a two-parameter predicate helper returning such a comparison. Shapes it does not understand give false.
+func eqdGuardedPaths(p *packages.Package, body *ast.BlockStmt, call *ast.CallExpr, x, y string) bool {
+	info := p.TypesInfo
+	defOf := func(id *ast.Ident) ast.Expr {
+		obj := info.Uses[id]
+		if obj == nil {
+			return nil
+		}
+		var defs []ast.Expr
+		ast.Inspect(body, func(n ast.Node) bool {
+			if as, ok := n.(*ast.AssignStmt); ok && len(as.Lhs) == len(as.Rhs) {
+				for i, l := range as.Lhs {
+					if lid, ok := l.(*ast.Ident); ok && (info.Defs[lid] == obj || info.Uses[lid] == obj) {
+						defs = append(defs, as.Rhs[i])
+					}
+				}
+			}
+			return true
+		})
+		if len(defs) == 1 {
+			return defs[0]
+		}
+		return nil
+	}
+	var kindOf func(e ast.Expr, depth int) string // "x", "y" or ""
+	kindOf = func(e ast.Expr, depth int) string {
+		e = ast.Unparen(e)
+		if id, ok := e.(*ast.Ident); ok && depth < 3 {
+			if d := defOf(id); d != nil {
+				return kindOf(d, depth+1)
+			}
+			return ""
+		}
+		c, ok := e.(*ast.CallExpr)
+		if !ok || len(c.Args) != 0 {
+			return ""
+		}
+		sel, ok := c.Fun.(*ast.SelectorExpr)
+		if !ok || sel.Sel.Name != "Kind" {
+			return ""
+		}
+		switch exprStr(mbStripDeref(sel.X)) {
+		case x:
+			return "x"
+		case y:
+			return "y"
+		}
+		return ""
+	}
+	// rel: +1 = e true means kinds equal, -1 = e true means kinds differ, 0 = unrelated
+	var rel func(e ast.Expr, depth int) int
+	rel = func(e ast.Expr, depth int) int {
+		e = ast.Unparen(e)
+		if depth > 3 {
+			return 0
+		}
+		switch t := e.(type) {
+		case *ast.UnaryExpr:
+			if t.Op == token.NOT {
+				return -rel(t.X, depth+1)
+			}
+		case *ast.Ident:
+			if d := defOf(t); d != nil {
+				return rel(d, depth+1)
+			}
+		case *ast.BinaryExpr:
+			if t.Op == token.EQL || t.Op == token.NEQ {
+				a, b := kindOf(t.X, 0), kindOf(t.Y, 0)
+				if a != "" && b != "" && a != b {
+					if t.Op == token.EQL {
+						return 1
+					}
+					return -1
+				}
+			}
+		case *ast.CallExpr:
+			// predicate helper: func(a, b V) bool { return a.Kind() ==/!= b.Kind() }
+			fn := CalleeOf(info, t)
+			if fn == nil || len(t.Args) != 2 || fn.Pkg() != p.Types {
+				return 0
+			}
+			ax, ay := exprStr(mbStripDeref(t.Args[0])), exprStr(mbStripDeref(t.Args[1]))
+			if !((ax == x && ay == y) || (ax == y && ay == x)) {
+				return 0
+			}
+			for _, hd := range AllFuncDecls(p) {
+				if hd.Body == nil || info.Defs[hd.Name] != fn || len(hd.Body.List) != 1 {
+					continue
+				}
+				ret, ok := hd.Body.List[0].(*ast.ReturnStmt)
+				if !ok || len(ret.Results) != 1 {
+					continue
+				}
+				be, ok := ast.Unparen(ret.Results[0]).(*ast.BinaryExpr)
+				if !ok || (be.Op != token.EQL && be.Op != token.NEQ) {
+					continue
+				}
+				isK := func(e ast.Expr) bool {
+					c, ok := ast.Unparen(e).(*ast.CallExpr)
+					if !ok || len(c.Args) != 0 {
+						return false
+					}
+					sel, ok := c.Fun.(*ast.SelectorExpr)
+					if !ok || sel.Sel.Name != "Kind" {
+						return false
+					}
+					_, isId := ast.Unparen(sel.X).(*ast.Ident)
+					return isId
+				}
+				if isK(be.X) && isK(be.Y) && exprStr(be.X) != exprStr(be.Y) {
+					if be.Op == token.EQL {
+						return 1
+					}
+					return -1
+				}
+			}
+		}
+		return 0
+	}
+	containsCall := func(n ast.Node) bool {
+		found := false
+		ast.Inspect(n, func(m ast.Node) bool {
+			if m == call {
+				found = true
+			}
+			return !found
+		})
+		return found
+	}
+	type pst struct{ same bool }
+	reached, unguarded := 0, 0
+	w := &Walker[*pst]{
+		Clone:   func(s *pst) *pst { c := *s; return &c },
+		IsPanic: func(s ast.Stmt) bool { return IsPanicCall(info, s) },
+		OnStmt: func(s *pst, st ast.Stmt) (*pst, bool) {
+			if containsCall(st) {
+				reached++
+				if !s.same {
+					unguarded++
+				}
+			}
+			return s, true
+		},
+		OnCond: func(s *pst, cond ast.Expr, taken bool) (*pst, bool) {
+			if containsCall(cond) {
+				reached++
+				if !s.same {
+					unguarded++
+				}
+			}
+			r := rel(cond, 0)
+			if (r == 1 && taken) || (r == -1 && !taken) {
+				s.same = true
+			}
+			return s, true
+		},
+		LoopSummary: func(loop ast.Stmt, before *pst, ends []*pst) (*pst, bool) {
+			return &pst{}, true
+		},
+	}
+	// every iteration starts without knowledge about the (new) elements
+	w.OnRange = func(s *pst, r *ast.RangeStmt) (*pst, bool) { return &pst{}, true }
+	w.Run(body, &pst{})
+	if w.Overflow || len(w.Unsupported) > 0 {
+		return false
+	}
+	return reached > 0 && unguarded == 0
 }
